@@ -1,13 +1,37 @@
 import EdpVerif.Lemmas.DecMono
+import EdpVerif.Lemmas.DecModern
+import EdpVerif.Lemmas.DecCtx
+import EdpVerif.Lemmas.DecNoTrailing
 import EdpVerif.Impl.TableTie
+import EdpVerif.Generated.Misc
 /-
 C13 — the zero-copy decoder agrees with the owned decoder.
-`decodeBorrowed`/`decode` are the two configurations of one generic model; each is tied to its own Rust twin
-separately by the correspondence run (`dec` / `decb` lines), so an edit to one twin shows up for that twin.
-`to_owned` is the identity on the model term (DESIGN §4); that identification is carried by the correspondence.
+
+Models.  `decode` / `decodeBorrowed` are the two configurations of one generic decoder model (Impl/Decode.lean), each tied
+to its own Rust twin by the correspondence run (`dec` / `decb` lines).  `decodeBorrowedCtx` (Impl/DecodeCtx.lean) is the
+zero-copy parser family once more, function by function, WITH the `ParsingContext` it maintains (byte offset, path, the
+`usize` subtraction that computes the offset); it is tied to `decode_borrowed` including the reported offset and path
+(`c13ctx` lines), and `C13_ctx_erase` shows that forgetting the context gives `decodeBorrowed` on every input.
+`to_owned` is the identity on the model term; the harness checks on every accepted input that the canonical text written from
+the zero-copy tree itself equals the text of the converted term, and that `From<&OwnedTerm>` followed by `to_owned` returns it.
+
+Clauses.  (1) same term whenever the zero-copy decoder accepts: `C13_agree`, `C13_agree_ctx`, `C13_reject_both`.
+(2) accepts whenever the owned decoder accepts, on inputs laid out with modern tags only: `C13_modern_accepts`,
+`C13_modern_accepts_ctx`, with the guard `Spec.Modern.modernOnly` (an independent recogniser of the layout); the guard
+cannot be dropped (`C13_legacy_refused`); the tag tables behind it are regenerated (`C13_tagsets`, `C13_modern_dispatched`,
+`C13_owned_only_exact`, `C13_ctx_parsers`).
+(3) the reported offset lies within the input: `C13_offset_within` (with `C13_no_underflow`: the subtraction that computes
+it never wraps), and what more is true: `C13_offset_behind_version`, `C13_trailing_offset`, `C13_version_offset`.
 -/
 namespace Edp.Props.C13
 open Edp
+
+/-- evaluation of the models on a concrete input (non-vacuity examples) -/
+macro "evalm" : tactic => `(tactic| simp [decodeBorrowedCtx, decC, decCN, decCKV, decodeBorrowed, decode, decodeWith, dec, decN, decKV,
+  ownedOnlyTags, ctxLeafTags, cBorrowed, MAX_NESTING_DEPTH, MAX_ATOM_SIZE, MAX_LIST_SIZE, MAX_TUPLE_SIZE, rdU, rdN, takeE, takeN,
+  decAtomBody, decLatin1Body, latin1ToUtf8, utf8Encode, utf8EncodeCp, Ext.none, SeqKind.seg])
+
+/-! ### clause 1 — same term -/
 
 /-- on every input the zero-copy decoder accepts, the owned decoder returns exactly the same term
 (any external behaviour of zlib / float parsing, any atom cache, any fuel, any depth) -/
@@ -30,16 +54,253 @@ theorem C13_agree (x : Ext) (bs : Bytes) (t : Term) :
       · rename_i t' rest hne heq
         simp at h
 
-/-- the borrowed decoder dispatches on a subset of the owned decoder's tags (regenerated from the source every run) -/
+example : decodeBorrowed Ext.none [131, 97, 5] = .ok (.int 5) := by evalm
+
+/-- the contrapositive, spelled out: an input the owned decoder refuses is refused by the zero-copy decoder -/
+theorem C13_reject_both (x : Ext) (bs : Bytes) (e : DErr) :
+    decode x bs = .error e → ∃ e', decodeBorrowed x bs = .error e' := by
+  intro h
+  cases hb : decodeBorrowed x bs with
+  | error e' => exact ⟨e', rfl⟩
+  | ok t => rw [C13_agree x bs t hb] at h; simp at h
+
+example : decode Ext.none [131, 0] = .error .err := by evalm
+
+/-! ### clause 2 — acceptance on modern-tag inputs -/
+
+/-- on every input laid out with the tags current OTP releases emit over distribution only (the Spec's recogniser
+`modernOnly`: layout, nothing else), the zero-copy decoder accepts whenever the owned decoder accepts, with the same
+term — all byte strings, any behaviour of the external calls -/
+theorem C13_modern_accepts (x : Ext) (bs : Bytes) (t : Term) :
+    Spec.Modern.modernOnly bs = true → decode x bs = .ok t → decodeBorrowed x bs = .ok t := by
+  intro hm hd
+  unfold decode decodeWith at hd
+  unfold decodeBorrowed decodeWith
+  cases bs with
+  | nil => simp at hd
+  | cons v r =>
+    by_cases hv : v != 131
+    · simp [hv] at hd
+    · simp only [hv, Bool.false_eq_true, ↓reduceIte] at hd ⊢
+      have hv' : v = 131 := by simpa using hv
+      subst hv'
+      simp only [Spec.Modern.modernOnly, beq_iff_eq] at hm
+      split at hd
+      · simp at hd
+      · rename_i t' heq
+        have := ((dec_accepts_modern x [] (r.length + 1 + x.extra)).1 0 r t' [] _ _ heq hm).2
+        simp only [cB] at this
+        rw [this]; exact hd
+      · simp at hd
+
+example : Spec.Modern.modernOnly [131, 104, 2, 97, 1, 119, 1, 97] = true := by decide
+example : Spec.Modern.modernOnly [131, 104, 1, 115, 1, 97] = false := by decide
+
+
+/-- the guard cannot be dropped: a legacy SMALL_ATOM_EXT atom is accepted by the owned decoder and refused by the
+zero-copy decoder (which has no arm for tag 115), and the recogniser says so -/
+theorem C13_legacy_refused :
+    ∃ bs t, decode Ext.none bs = .ok t ∧ decodeBorrowed Ext.none bs = .error .err ∧ Spec.Modern.modernOnly bs = false :=
+  ⟨[131, 115, 1, 97], .atom [97], by evalm, by evalm, by decide⟩
+
+/-- the zero-copy decoder dispatches on a subset of the owned decoder's tags (both regenerated from the source every run) -/
 theorem C13_tagsets : ∀ t ∈ Gen.borrowedTags, t ∈ Gen.ownedTags := by decide
 
-/-- every tag current OTP releases emit over distribution is in the zero-copy decoder's dispatch table -/
-theorem C13_modern_accepted :
-    ∀ t ∈ [97, 98, 110, 111, 70, 118, 119, 104, 105, 106, 107, 108, 109, 77, 116, 88, 120, 89, 90, 113, 112],
-      t ∈ Gen.borrowedTags := by decide
+/-- the tags the Spec's recogniser knows are exactly the 21 modern tags, and the zero-copy decoder's dispatch table
+(regenerated) has an arm for every one of them -/
+theorem C13_modern_dispatched :
+    Spec.Modern.modernTags = [97, 98, 110, 111, 70, 118, 119, 104, 105, 106, 107, 108, 109, 77, 116, 88, 120, 89, 90, 113, 112] ∧
+    ∀ t ∈ Spec.Modern.modernTags, t ∈ Gen.borrowedTags := by decide
 
-/-- a reported error offset `original_len - remaining.len()` lies within the input whenever `remaining` is a suffix -/
-theorem C13_offset (original remaining : Bytes) (pre : Bytes) (h : original = pre ++ remaining) :
-    original.length - remaining.length ≤ original.length := by omega
+/-- the tags the model's zero-copy configuration refuses are exactly the tags the regenerated owned table has and the
+regenerated zero-copy table lacks (DIST_HEADER, 68, is in the owned table only to be rejected), and none of them is modern -/
+theorem C13_owned_only_exact :
+    (∀ t, t ∈ ownedOnlyTags ↔ (t ∈ Gen.ownedTags ∧ t ∉ Gen.borrowedTags ∧ t ≠ 68)) ∧
+    ∀ t ∈ ownedOnlyTags, t ∉ Spec.Modern.modernTags := by
+  constructor
+  · intro t; simp [ownedOnlyTags, Gen.ownedTags, Gen.borrowedTags]; omega
+  · decide
+
+/-- which zero-copy parsers receive the error context, which do not, and which path segment each loop pushes —
+as regenerated from decoder.rs — are what the context model has -/
+theorem C13_ctx_parsers :
+    Gen.C13_CTX_TAGS = ctxNodeTags ∧ Gen.C13_PLAIN_TAGS = ctxLeafTags ∧
+    Gen.C13_PUSHES = [("parse_small_tuple_borrowed", ["TupleElement"]), ("parse_large_tuple_borrowed", ["TupleElement"]),
+      ("parse_list_borrowed", ["ListElement", "ImproperListTail"]), ("parse_map_borrowed", ["MapKey", "MapValue"]),
+      ("parse_new_fun_ext_borrowed", ["FunFreeVar"])] ∧
+    Gen.C13_OFFSET_ASSIGNMENTS = ["parse_versioned_term_borrowed:original_len-input.len()-1",
+      "parse_term_borrowed:original_len-input.len()", "decode_borrowed:original_len-remaining.len()"] := by decide
+
+/-! ### the context model is the zero-copy decoder -/
+
+/-- forgetting offset and path, the context model returns what the zero-copy configuration of the generic model returns,
+on every input (so clause 1 and 2 hold for it as well), and the offset arithmetic never panics on the way -/
+theorem C13_ctx_erase (x : Ext) (bs : Bytes) : (decodeBorrowedCtx x bs).erase = some (decodeBorrowed x bs) := by
+  unfold decodeBorrowedCtx decodeBorrowed decodeWith
+  cases bs with
+  | nil => simp [BTop.erase]
+  | cons v r =>
+    simp only [List.length_cons, Nat.lt_irrefl, gt_iff_lt, ↓reduceIte]
+    by_cases hv : v != 131
+    · simp [hv, BTop.erase]
+    · simp only [hv, Bool.false_eq_true, ↓reduceIte]
+      have h := ctx_top x r
+      revert h
+      generalize decC x (r.length + 1) (r.length + 1 + x.extra) 0 [] r = cres
+      have e : ({ borrowed := true } : DecCfg) = cBorrowed := rfl
+      rw [e]
+      generalize dec x cBorrowed (r.length + 1 + x.extra) 0 r = dres
+      intro h
+      rcases cres with ⟨t, r2, off2⟩ | ⟨e, o, q⟩ | _
+      · obtain ⟨rfl, hl, _, _⟩ := h
+        cases r2 with
+        | nil => simp [BTop.erase]
+        | cons b rest =>
+          have : ¬ (rest.length + 1 > r.length + 1) := by simp only [List.length_cons] at hl; omega
+          simp [this, BTop.erase]
+      · obtain ⟨rfl, _, _⟩ := h
+        simp [BTop.erase]
+      · exact h.elim
+
+
+example : decodeBorrowedCtx Ext.none [131, 104, 2, 97, 1] = .fail .err 5 [.tupleElem 1] := by evalm
+
+theorem C13_agree_ctx (x : Ext) (bs : Bytes) (t : Term) : decodeBorrowedCtx x bs = .ok t → decode x bs = .ok t := by
+  intro h
+  have := C13_ctx_erase x bs
+  rw [h] at this
+  simp only [BTop.erase, Option.some.injEq] at this
+  exact C13_agree x bs t this.symm
+
+theorem C13_modern_accepts_ctx (x : Ext) (bs : Bytes) (t : Term) :
+    Spec.Modern.modernOnly bs = true → decode x bs = .ok t → decodeBorrowedCtx x bs = .ok t := by
+  intro hm hd
+  have h1 := C13_modern_accepts x bs t hm hd
+  have h2 := C13_ctx_erase x bs
+  rw [h1] at h2
+  cases hc : decodeBorrowedCtx x bs <;> rw [hc] at h2 <;> simp [BTop.erase] at h2
+  rw [h2]
+
+example : decodeBorrowedCtx Ext.none [131, 104, 2, 97, 1, 106] = .ok (.tuple [.int 1, .nil]) := by evalm
+
+/-! ### clause 3 — the reported offset -/
+
+/-- `original_len - input.len()` never underflows: no parser of the family is ever handed more bytes than the input has -/
+theorem C13_no_underflow (x : Ext) (bs : Bytes) : decodeBorrowedCtx x bs ≠ .panic := by
+  intro h
+  have := C13_ctx_erase x bs
+  rw [h] at this
+  simp [BTop.erase] at this
+
+/-- when the zero-copy decoder rejects an input, the byte offset it reports lies within the input — every input, every
+kind of error -/
+theorem C13_offset_within (x : Ext) (bs : Bytes) (e : DErr) (off : Nat) (p : List Seg) :
+    decodeBorrowedCtx x bs = .fail e off p → off ≤ bs.length := by
+  unfold decodeBorrowedCtx
+  cases bs with
+  | nil => intro h; simp at h; omega
+  | cons v r =>
+    simp only [List.length_cons, Nat.lt_irrefl, gt_iff_lt, ↓reduceIte]
+    by_cases hv : v != 131
+    · simp only [hv, ↓reduceIte]; intro h; simp at h; omega
+    · simp only [hv, Bool.false_eq_true, ↓reduceIte]
+      have h := ctx_top x r
+      revert h
+      generalize decC x (r.length + 1) (r.length + 1 + x.extra) 0 [] r = cres
+      generalize dec x cBorrowed (r.length + 1 + x.extra) 0 r = dres
+      intro h
+      rcases cres with ⟨t, r2, off2⟩ | ⟨e', o, q⟩ | _
+      · cases r2 with
+        | nil => intro h'; simp at h'
+        | cons b rest =>
+          intro h'
+          simp only [] at h'
+          split at h'
+          · simp at h'
+          · simp at h'; omega
+      · obtain ⟨_, _, ho⟩ := h
+        intro h'; simp at h'; omega
+      · exact h.elim
+
+example : decodeBorrowedCtx Ext.none [131, 108, 0, 0, 0, 1, 97] = .fail .err 6 [.listElem 0] := by evalm
+
+/-- behind a good version byte every reported offset is at least 1, and an error other than trailing data carries the path
+and offset of the term being parsed: it lies behind the version byte -/
+theorem C13_offset_behind_version (x : Ext) (r : Bytes) (e : DErr) (off : Nat) (p : List Seg) :
+    decodeBorrowedCtx x (131 :: r) = .fail e off p → 1 ≤ off := by
+  unfold decodeBorrowedCtx
+  simp only [List.length_cons, Nat.lt_irrefl, gt_iff_lt, ↓reduceIte, bne_self_eq_false, Bool.false_eq_true]
+  have h := ctx_top x r
+  revert h
+  generalize decC x (r.length + 1) (r.length + 1 + x.extra) 0 [] r = cres
+  generalize dec x cBorrowed (r.length + 1 + x.extra) 0 r = dres
+  intro h
+  rcases cres with ⟨t, r2, off2⟩ | ⟨e', o, q⟩ | _
+  · obtain ⟨_, hl, _, _⟩ := h
+    cases r2 with
+    | nil => intro h'; simp at h'
+    | cons b rest =>
+      intro h'
+      simp only [List.length_cons] at hl
+      simp only [] at h'
+      split at h'
+      · simp at h'
+      · simp at h'; omega
+  · obtain ⟨_, hlo, _⟩ := h
+    intro h'; simp at h'; omega
+  · exact h.elim
+
+/-- trailing data: the offset is where the trailing bytes start, the count is what follows, the path is the root -/
+theorem C13_trailing_offset (x : Ext) (bs : Bytes) (n off : Nat) (p : List Seg) :
+    decodeBorrowedCtx x bs = .fail (.trailing n) off p → off + n = bs.length ∧ 0 < n ∧ 0 < off := by
+  intro h0
+  have hw := C13_offset_within x bs _ _ _ h0
+  revert h0
+  unfold decodeBorrowedCtx
+  cases bs with
+  | nil => intro h; simp at h
+  | cons v r =>
+    simp only [List.length_cons, Nat.lt_irrefl, gt_iff_lt, ↓reduceIte]
+    by_cases hv : v != 131
+    · simp only [hv, ↓reduceIte]; intro h; simp at h
+    · simp only [hv, Bool.false_eq_true, ↓reduceIte]
+      have h := ctx_top x r
+      have hnt := (dec_ne_trailing x cBorrowed n (r.length + 1 + x.extra)).1 0 r
+      revert h hnt
+      generalize decC x (r.length + 1) (r.length + 1 + x.extra) 0 [] r = cres
+      generalize dec x cBorrowed (r.length + 1 + x.extra) 0 r = dres
+      intro h hnt
+      rcases cres with ⟨t, r2, off2⟩ | ⟨e', o, q⟩ | _
+      · obtain ⟨_, hl, _, _⟩ := h
+        cases r2 with
+        | nil => intro h'; simp at h'
+        | cons b rest =>
+          intro h'
+          simp only [List.length_cons] at hl
+          simp only [] at h'
+          split at h'
+          · simp at h'
+          · simp at h'; omega
+      · intro h'
+        simp at h'
+        obtain ⟨rfl, _, _⟩ := h'
+        -- a parser of the family never reports trailing data: that is the top level's finding
+        exact absurd h.1 hnt
+      · exact h.elim
+
+example : decodeBorrowedCtx Ext.none [131, 106, 7, 7] = .fail (.trailing 2) 2 [] := by evalm
+
+/-- a missing or wrong version byte is reported at offset 0, at the root -/
+theorem C13_version_offset (x : Ext) (bs : Bytes) (h : ∀ r, bs ≠ 131 :: r) : decodeBorrowedCtx x bs = .fail .err 0 [] := by
+  unfold decodeBorrowedCtx
+  cases bs with
+  | nil => rfl
+  | cons v r =>
+    have hv : (v != 131) = true := by
+      simp only [bne_iff_ne, ne_eq]
+      intro hv; exact h r (by rw [hv])
+    simp [hv]
+
+example : decodeBorrowedCtx Ext.none [130, 106] = .fail .err 0 [] := by evalm
 
 end Edp.Props.C13
